@@ -429,7 +429,7 @@ PROPS = {
                 "sentinel answered and the user list must converge back to 1 entry (closed loop: a falling count is waited for, a count stuck "
                 "above 1 for 60 s is a leak), no 'fatal error' in its output; thorough adds a -race build where only race "
                 "reports with runtime map frames count. non-trivial = a hostile connection got past handshake and login (bubble) / sent more "
-                "than a handshake (net); distinct = hash(hostile descriptions) / hash(source, bytes); the requests that obtain a transfer reference number may lack (or shorten) the transfer-size / item-count fields; the loopback storm also hits the transfer port (garbage, truncated and well-formed preambles with reference numbers nobody was given), and the well-behaved client, whose account has a file root of its own, downloads a file through the transfer port before and after the storm",
+                "than a handshake (net); distinct = hash(hostile descriptions) / hash(source, bytes); the requests that obtain a transfer reference number may lack (or shorten) the transfer-size / item-count fields; the loopback storm also hits the transfer port (garbage, truncated and well-formed preambles with reference numbers nobody was given), and the well-behaved client, whose account has a file root of its own, downloads a file through the transfer port before and after the storm; it also downloads while each batch of the storm is in flight, and before and after the storm opens 40 granted transfer connections at the same instant, each of which must deliver its file",
         "assumptions": ["the hostile account lacks delete-user / modify-user (removing other users' accounts with valid requests is not a containment failure); it may send disconnect requests, the well-behaved account cannot be disconnected",
                         "declared fork sizes <= 1 MiB (the property's bound)", "goroutine schedules are sampled"],
         "quick": {"runs": [{"test": "^TestC03$", "shards": 15, "checks": 100, "timeout": 900},
